@@ -164,16 +164,22 @@ fn err_name(e: &jsonb::Error) -> String {
     }
 }
 
+thread_local! {
+    /// decodes of this thread that ran on a row placed against the guard page (drained into the run's stats)
+    static PLACED: std::cell::Cell<u64> = const { std::cell::Cell::new(0) };
+}
+
 /// Result of one decode under the oracle. `Ok(outcome label)` or a violation.
 fn decode_once(decoder: &str, bytes: &[u8]) -> Result<(String, Option<MVal>), Viol> {
     alloc::reset();
     // the row is decoded where a column store would have it: unaligned, and with nothing readable behind it
-    let (r, _placed) = crate::placement::with_row(bytes, |bytes| {
+    let (r, placed) = crate::placement::with_row(bytes, |bytes| {
         guard(|| match decoder {
             "from_slice" => jsonb::from_slice(bytes).map(|v| mval::from_value(&v)),
             _ => jsonb::parse_jsonb(bytes).map(|v| mval::from_value(&v)),
         })
     });
+    PLACED.with(|c| c.set(c.get() + placed as u64));
     let max_req = alloc::max_request();
     let limit = (256usize << 20).max(4096 * bytes.len());
     if max_req > limit {
@@ -890,6 +896,8 @@ impl Scenario for Corrupt {
                 cx.stats.sample(10, || json!({"kind": origin, "hex": mval::hex(bytes)}));
             }
         }
+        let placed = PLACED.with(|c| c.replace(0));
+        cx.stats.add("probe/decode_on_row_ending_at_inaccessible_page", placed);
         RunOut { digest: cx.digest.finish(), violations: cx.violations }
     }
 
@@ -1054,7 +1062,7 @@ impl Scenario for Corrupt {
         m.insert(
             "components".into(),
             json!({"real": ["jsonb::from_slice", "jsonb::parse_jsonb", "jsonb text parser (fallback)"],
-                   "simulated": ["block store holding encodings", "fault injector", "memory-limited node (accounting allocator)", "caller"],
+                   "simulated": ["block store holding encodings", "fault injector", "memory-limited node (accounting allocator)", "where the row sits in memory (every alignment; an inaccessible page right behind its last byte)", "caller"],
                    "stub": []}),
         );
         m
@@ -1071,6 +1079,7 @@ impl Scenario for Corrupt {
             "probe/err:InvalidJsonbNumber",
             "probe/err:InvalidUtf8",
             "probe/err:Syntax",
+            "probe/decode_on_row_ending_at_inaccessible_page",
         ]
     }
 }
